@@ -31,6 +31,10 @@ func genC20(r *simcore.Rand, tier string) any {
 	p.K.MaxDiff = r.Range(2, 6)
 	p.K.Accounts = r.Range(3, 8)
 	p.K.NoAsyncFlush = r.Bool(0.5)
+	if r.Bool(0.5) {
+		// make "batch grew beyond IdealBatchSize" paths fire with tiny states
+		p.K.ValueScale = []int{300, 3000, 30000}[r.Intn(3)]
+	}
 	if r.Bool(0.4) {
 		switch {
 		case r.Bool(0.1):
